@@ -52,7 +52,7 @@ def gen_cases(tier, seed):
     for base, n in ([("EulerSolver", 3), ("RK4Solver", 3), ("MidpointSolver", 4)] if tier == "quick" else
                     [("EulerSolver", 3), ("RK4Solver", 3), ("MidpointSolver", 4), ("HeunsSolver", 2), ("RK45CKSolver", 3), ("ImplicitMidpoint", 3)]):
         for d in (1, -1):
-            for h in (["single", "split"] if tier == "quick" else ["single", "split", "terminal_continue", "events_nonterminal"]):
+            for h in (["single", "split", "terminal_continue"] if tier == "quick" else ["single", "split", "terminal_continue", "events_nonterminal", "fail_resume"]):
                 L = float(rng.uniform(1.0, 2.0))
                 t0 = float(rng.uniform(-3, 3))
                 cases.append(dict(method=base, rich=n, direction=d, history=h, t0=t0, tf=t0 + d * L, nsteps=20.0, rtol=10 ** float(rng.uniform(-7, -4)),
